@@ -159,12 +159,11 @@ namespace Pistache::Http::Header
                                 "Invalid caching directive, missing delta-seconds");
                         }
 
+                        // str is not \0 terminated: convert from a bounded copy
                         char* end;
-                        const char* beg = cursor.offset();
-                        // @Security: if str is not \0 terminated, there might be a situation
-                        // where strtol can overflow. Double-check that it's harmless and fix
-                        // if not
-                        auto secs = strtol(beg, &end, 10);
+                        const std::string delta(cursor.offset(), cursor.remaining());
+                        const char* beg = delta.c_str();
+                        auto secs       = strtol(beg, &end, 10);
                         cursor.advance(end - beg);
                         if (!cursor.eof() && cursor.current() != ',')
                         {
@@ -473,9 +472,10 @@ namespace Pistache::Http::Header
 
     void Date::write(std::ostream& os) const { fullDate_.write(os); }
 
-    void Expect::parseRaw(const char* str, size_t /*len*/)
+    void Expect::parseRaw(const char* str, size_t len)
     {
-        if (std::strcmp(str, "100-continue") == 0)
+        static constexpr size_t ContinueLen = sizeof("100-continue") - 1;
+        if (len == ContinueLen && std::strncmp(str, "100-continue", ContinueLen) == 0)
         {
             expectation_ = Expectation::Continue;
         }
